@@ -1,11 +1,11 @@
 package rules
 
 import (
-	"regexp"
 	"fmt"
 	"go/token"
 	"go/types"
 	"os"
+	"regexp"
 	"strings"
 
 	"golang.org/x/tools/go/ssa"
@@ -542,6 +542,35 @@ func ruleValueBlind(rule string) RuleFn {
 			})
 		}
 		c.Floor(rule, "reflect.Value inspection sites", n, 8)
+		// how MANY values a group holds is a fact about run-time values too (a flattened result contributes as many
+		// members as the slice the function returned has elements - none under DryRun): no branch depends on the
+		// length of a stored value group
+		nLen := 0
+		for _, fn := range c.P.Funcs {
+			if fn.Pkg != c.P.Dig {
+				continue
+			}
+			an.EdgesWhere(fn, func(ft an.Fact) bool {
+				if ft.Neg {
+					return false
+				}
+				if in, ok := ft.Cond.(ssa.Instruction); ok && in.Block() != nil && in.Block().Comment == "rangeindex.loop" {
+					return false // iterating over the members is not a decision about their number
+				}
+				if regexp.MustCompile(`len\(.*\.(getValueGroup|getDecoratedValueGroup)\(`).MatchString(ft.S) || regexp.MustCompile(`len\(p:[a-z]+\.(groups|decoratedGroups)\[`).MatchString(ft.S) {
+					nLen++
+					var at ssa.Instruction
+					if in, ok := ft.Cond.(ssa.Instruction); ok {
+						at = in
+					}
+					c.Bad(rule, "no branch on the number of values a group holds in "+an.ShortName(fn), "dig branches on "+ft.S+": a verdict or the set of functions that run depends on how many members the group's feeders returned - a flattened slice is empty under DryRun, so the dry container judges the same program differently", at, nil)
+				}
+				return false
+			})
+		}
+		if nLen == 0 {
+			c.OKAt(rule, "no branch on the number of values a group holds", "0 conditions mention the length of a stored value group", "-")
+		}
 	}
 }
 
